@@ -409,3 +409,82 @@ def c17(ctx):
                   "from each pair must equal the generating motion; perturbation families per behaviour: +3 mm / +8 mm along an edge, "
                   "mirrored target, exactly collinear target with a 1 mm-off source; plus forward_transformed events (Trace_Frame)",
                   assumptions=["tolerance 1e-9 (1e-6 for the nearly collinear triple whose normal is ill conditioned)"])
+
+
+# ----------------------------------------------------------------------------- C10 / C14
+def tasks_binding(ctx, pid, keep):
+    """Gen_Collision -> hook H3 task sets; `keep` selects the signatures that belong to the property."""
+    g = tlc(ctx, "Gen_Collision", constants={"MaxEntries": 1 if ctx.quick else 2}, workers=8)
+    lines = tlc_json_lines(g["out"], "tasks")
+    if not lines:
+        raise core.ToolError("Gen_Collision printed nothing")
+    write_ndjson(ctx.path("tasks.ndjson"), lines)
+    opwv(ctx, ["replay", "tasks", ctx.path("tasks.ndjson"), ctx.path("tasks.out")])
+    stats = {}
+    for rec in read_ndjson(ctx.path("tasks.out")):
+        if "stats" in rec:
+            stats = rec["stats"]
+        elif "sample" in rec:
+            ctx.sample(rec["sample"])
+        elif keep(rec["sig"]):
+            ctx.violation(pid + ":" + rec["sig"], rec.get("detail", ""), rec.get("data"))
+    ctx.evaluations += stats.get("evaluations", 0)
+    ctx.traces += len(lines)
+    for ln in lines:
+        if ln["table"]:
+            ctx.nontrivial.add(json.dumps([ln["tool"], ln["base"], ln["nenv"], ln["table"]]))
+
+
+@check("C10")
+def c10(ctx):
+    # all schedules of the parallel task evaluation, both modes
+    tlc(ctx, "MC_Collision", constants={"Mode": '"first"'}, workers=8)
+    tlc(ctx, "MC_Collision", constants={"Mode": '"all"'}, workers=8)
+    tasks_binding(ctx, "C10", lambda sig: "after-single-joint-move" not in sig and ":offsets" not in sig)
+    opwv(ctx, ["record", "collision", ctx.path("coll.trace")])
+    viols, done = trace_validate(ctx, "Trace_Collision", ctx.path("coll.trace"), xmx="12g")
+    ev = read_ndjson(ctx.path("coll.trace"))
+    for v in viols:
+        e = ev[v["l"] - 1]
+        for clause in v["clause"]:
+            small = {k: e[k] for k in ("api", "pool", "mode", "tool", "base", "nenv", "table", "def_env", "def_robot", "report", "verdict", "class", "case")}
+            small["close_pairs"] = [p for p in e["pairs"] if p["d"] < 400000]
+            ctx.violation("%s:%s:%s" % (clause, e["api"], e["class"].split(";")[0]), "event #%d %s" % (v["l"], json.dumps(small)[:900]), e)
+    ctx.evaluations += len(ev)
+    for e in ev:
+        if e["report"]:
+            ctx.nontrivial.add(e["case"])
+    ctx.extra["pools"] = sorted({e["pool"] for e in ev})
+    ctx.sample({k: ev[0][k] for k in ev[0] if k != "pairs"})
+    return finish(ctx, rule="(a) MC_Collision: every schedule of W=3 workers over 4 tasks x every hit set, both modes; (b) Gen_Collision: "
+                  "tool x base x 0..2 environment objects x safety tables of up to MaxEntries entries (reversed keys, pairs naming J1, "
+                  "tool/base/environment pairs) with the pair set that must be evaluated, compared with the tasks emitted by hook H3 for "
+                  "collision_details / collides / near; (c) constructive box scenes (size and vertex-count classes, gaps overlapping / "
+                  "r-5mm / r+5mm / far, per-pair overrides, NEVER entries) x modes x rayon pools, each report judged by TLC from the "
+                  "brute-force distance of every body pair; non-trivial = scenes with a non-empty report",
+                  assumptions=["brute-force distances use parry's distance/intersection_test on the placed meshes (no pre-filter)",
+                               "pairs whose distance is within 60 um of the threshold are don't-care"])
+
+
+@check("C14")
+def c14(ctx):
+    tasks_binding(ctx, "C14", lambda sig: "after-single-joint-move" in sig or ":offsets" in sig)
+    opwv(ctx, ["record", "offsets", ctx.path("off.trace")])
+    viols, done = trace_validate(ctx, "Trace_Collision", ctx.path("off.trace"), xmx="12g")
+    ev = read_ndjson(ctx.path("off.trace"))
+    for v in viols:
+        e = ev[v["l"] - 1]
+        for clause in v["clause"]:
+            ctx.violation("%s:%s" % (clause, e["class"]), "event #%d %s" % (v["l"], json.dumps(e)[:900]), e)
+    ctx.evaluations += len(ev)
+    for e in ev:
+        if any(c["collides"] for c in e["cands"]):
+            ctx.nontrivial.add(e["case"])
+    ctx.sample({k: ev[0][k] for k in ("pool", "class", "moved_joint", "offered")})
+    return finish(ctx, rule="(a) hook H3: for every Gen_Collision configuration the tasks enumerated for each of the 12 candidates must "
+                  "cover every non-exempt pair with a moved member (Collision!MustCheck); (b) scenes laid out so that at one candidate "
+                  "vector a chosen pair (moved vs unmoved / both moved, link / tool / base / environment) is overlapping, inside or "
+                  "outside its safety distance, initial vector verified free; TLC recomputes limit compliance of the 12 candidates and "
+                  "demands offered = legal and free (full check of the same robot), under rayon pools; non-trivial = cases with a "
+                  "colliding candidate",
+                  assumptions=["the full check used as reference is the library's own collides(), as the statement says"])
